@@ -195,11 +195,15 @@ def build_items(ctx, quick):
         seen.add(text)
         plain = spell(e["toks"], decorated=False)
         items.append(dict(id="m%d" % n, text=text, plain=plain, mouts=e.get("mouts") or None,
-                          decorated=any(k.get("pre") for k in e["toks"])))
+                          decorated=any(k.get("pre") for k in e["toks"]), inner=bool(e.get("inner"))))
     und = [i for i in items if not i["decorated"]]
-    dec = [i for i in items if i["decorated"]]
+    dec = [i for i in items if i["decorated"] and not i["inner"]]
+    inner = [i for i in items if i["inner"]]
     ctx.rng.shuffle(dec)
-    cap = 5000 if quick else 60000
+    ctx.rng.shuffle(inner)
+    cap = 3800 if quick else 50000
+    icap = 1400 if quick else 25000
+    ctx.cov["inner_decorated_programs"] = dict(enumerated=len(inner), compiled=min(len(inner), icap))
     from props import scale
     big = []
     few = ("nest_blk", "nest_if", "nest_fn", "nest_fnexpr", "nest_call", "nest_obj", "rep_call1", "rep_if_else", "rep_let_fn", "long_str", "many_names")
@@ -221,7 +225,7 @@ def build_items(ctx, quick):
             plain = "\n".join(lines + lines[:55])
             txt = "\n".join("// c%d\n\n%s" % (k, ln) if ln.strip() else ln for k, ln in enumerate(plain.split("\n")))
             huge.append(dict(id=s["id"] + ":x185:trivia", text=txt, plain=plain, mouts=None, decorated=True))
-    return huge[:1] + und + fixture_items() + big + dec[:cap], len(und) + len(huge[:1]), len(dec)
+    return huge[:1] + und + fixture_items() + big + dec[:cap] + inner[:icap], len(und) + len(huge[:1]), len(dec) + len(inner)
 
 
 def run(ctx, which=None):
